@@ -73,8 +73,21 @@ struct record_t
     bool xid = true;
     bool raw = false;         // the handler received base references only (raw backends): no typed tags to read
     int psig = 0, pobj = 0;   // what the recording catch-all policy was given
+    int code = 0;             // code carried by the user exception a "throw" handler threw
+    bool nested = false;      // a "nest" handler dispatched again: what the inner handler recorded
+    int in_h = 0;
+    std::vector<int> in_sig;
+    std::vector<const void*> in_addr;
 };
 static record_t g;
+// handler behaviours (ids 50..59 throw, 60..69 dispatch again, 70..79 register while running); switched off
+// while the tables are probed; "nest" and "reg" only at depth 0
+struct user_error { int code; };
+static bool g_plain = false;
+static int g_depth = 0;
+static std::function<long()> g_nested;
+static std::function<void(int)> g_rereg;
+struct depth_guard { depth_guard() { ++g_depth; } ~depth_guard() { --g_depth; } };
 static const void* g_xaddr[3] = {nullptr, nullptr, nullptr};
 // maps the address of a complete object back to the id of the caller's object (0 = not one of them)
 static std::function<int(const void*)> g_lookup;
@@ -356,6 +369,9 @@ struct outcome
     std::vector<long> xv;
     bool xid = true;
     int psig = 0, pobj = 0;
+    int code = 0, in_h = 0;
+    bool nested = false;
+    std::vector<int> in_sig, in_ids;
 };
 
 static void fill(outcome& o)
@@ -365,6 +381,9 @@ static void fill(outcome& o)
     o.ids.clear();
     for (const void* p : g.addr) o.ids.push_back(g_lookup ? g_lookup(p) : 0);
     o.tg = g.raw ? o.ids : g.tg;
+    o.code = g.code; o.nested = g.nested; o.in_h = g.in_h; o.in_sig = g.in_sig;
+    o.in_ids.clear();
+    for (const void* p : g.in_addr) o.in_ids.push_back(g_lookup ? g_lookup(p) : 0);
 }
 
 static std::string outcome_json(const outcome& o)
@@ -378,6 +397,16 @@ static std::string outcome_json(const outcome& o)
         v.kv("h", o.h);
         v.kints("sig", o.sig).kints("dyn", o.dyn).kints("objs", o.ids).kints("tg", o.tg).kints("xv", o.xv);
         v.kb("xid", o.xid);
+        if (o.nested)
+        {
+            vj::out in;
+            in.kv("h", o.in_h).kints("sig", o.in_sig).kints("objs", o.in_ids);
+            v.kraw("in", in.obj());
+        }
+    }
+    else if (o.exc == "user")
+    {
+        v.kv("h", o.h).kints("sig", o.sig).kints("objs", o.ids).kv("code", o.code);
     }
     else if (o.psig != 0)
     {
@@ -405,6 +434,7 @@ static outcome guarded_here(F&& f, const char* quiet_error)
         // the call returned: either a handler ran, or the error was reported in-band
         if (g.calls == 0 && quiet_error) o.exc = quiet_error;
     }
+    catch (const user_error& e) { o.exc = "user"; o.what = "user_error"; g.code = e.code; }
     catch (const std::bad_function_call&) { o.exc = "exception"; o.what = "bad_function_call"; }
     catch (const std::bad_cast&) { o.exc = "exception"; o.what = "bad_cast"; }
     catch (const std::out_of_range&) { o.exc = "exception"; o.what = "out_of_range"; }
@@ -543,6 +573,25 @@ struct handler_t
         xrec(0, xs...);
         long r = long(h) * 100;
         for (long v : g.xv) r += v;
+        if (g_plain) return r;
+        if (h >= 50 && h < 60) throw user_error{h};
+        if (g_depth == 0 && h >= 60 && h < 70 && g_nested)
+        {
+            record_t mine = g;
+            depth_guard dg;
+            long ir = g_nested();          // an exception (error report, user exception of the inner handler) passes through
+            record_t in = g;
+            g = mine;
+            g.calls = in.calls;
+            g.nested = true;
+            g.in_h = in.h; g.in_sig = in.sig; g.in_addr = in.addr;
+            r += ir;
+        }
+        else if (g_depth == 0 && h >= 70 && h < 80 && g_rereg)
+        {
+            depth_guard dg;
+            g_rereg(h - 60);
+        }
         return r;
     }
 };
@@ -603,6 +652,7 @@ struct imachine
     virtual void clone(const std::string& how) = 0;
     virtual void take(const std::string& how) = 0;
     virtual void drop2() = 0;
+    virtual void new2() = 0;
     virtual bool has2() const = 0;
     virtual std::vector<long long> indices() const = 0;
 };
@@ -736,6 +786,7 @@ struct machine : imachine
     void clone(const std::string& how) override { clone_impl(how, std::integral_constant<bool, copyable>()); }
     void take(const std::string& how) override { take_impl(how, std::integral_constant<bool, copyable>()); }
     void drop2() override { at(2); d[1].reset(); }
+    void new2() override { d[1].reset(); d[1].reset(new disp_t()); }
 
     // ---- dispatch(args..., extras...)
     template <std::size_t... I>
@@ -772,6 +823,14 @@ struct machine : imachine
         g_xaddr[2] = &x3;
         g_lookup = [this](const void* p) { return pool.find(p); };
         const disp_t& dd = at(slot);
+        // what the "nest" / "reg" handlers do: dispatch the reversed arguments with the same extras through the
+        // same object; register a plain handler for the reversed class tuple in the same object
+        BT* ro[N];
+        long long rt[N];
+        for (std::size_t i = 0; i < N; ++i) { ro[i] = o[N - 1 - i]; rt[i] = os[N - 1 - i] / 10; }
+        g_nested = [&]() { return call(dd, std::make_index_sequence<N>(), ro, x1, x2, x3, std::integral_constant<std::size_t, NX>()); };
+        g_rereg = [&, slot](int h2) { inserter<N>::go(at(slot), rt, h2); };
+        struct unset { ~unset() { g_nested = nullptr; g_rereg = nullptr; } } un;
         return guarded([&]() { return call(dd, std::make_index_sequence<N>(), o, x1, x2, x3, std::integral_constant<std::size_t, NX>()); });
     }
 };
@@ -1217,8 +1276,10 @@ struct interp
         if (m)
         {
             std::vector<long long> os;
+            g_plain = true;          // the probe observes which handler a tuple reaches: behaviours switched off
             std::string s = "{\"tab\":" + table(1, 0, os) + ",\"tab2\":";
             s += m->has2() ? table(2, 0, os) : std::string("[]");
+            g_plain = false;
             return s + "}";
         }
 #endif
@@ -1268,7 +1329,7 @@ struct interp
             return VOID;
         }
 #if C17_FUNCTOR
-        if (op == "Insert" || op == "Erase" || op == "Dispatch" || op == "Clone" || op == "Take" || op == "Drop2")
+        if (op == "Insert" || op == "Erase" || op == "Dispatch" || op == "Clone" || op == "Take" || op == "Drop2" || op == "New2")
         {
             if (!m) bad_script("no dispatcher");
             int slot = int(a.num("d", 1));
@@ -1277,6 +1338,7 @@ struct interp
             if (op == "Clone") { m->clone(a.str("how")); return VOID; }
             if (op == "Take") { m->take(a.str("how")); return VOID; }
             if (op == "Drop2") { m->drop2(); return VOID; }
+            if (op == "New2") { m->new2(); return VOID; }
             outcome o = m->dispatch(slot, a.ints("os"), a.ints("xs"));
             what = o.what;
             return outcome_json(o);
